@@ -307,6 +307,7 @@ func TestVerif_C15_Conc(t *testing.T) {
 		type plan struct {
 			delayEvery, cloneAt, closeAt int
 			stall                        bool
+			cloners                      int // other goroutines that keep cloning (and dropping) this subscriber meanwhile
 		}
 		plans := make([]plan, nSub+nLate)
 		total := nPub * perPub
@@ -320,6 +321,9 @@ func TestVerif_C15_Conc(t *testing.T) {
 			}
 			if rapid.IntRange(0, 2).Draw(t, fmt.Sprintf("clone%d", i)) > 0 {
 				p.cloneAt = rapid.IntRange(0, total/2).Draw(t, "cloneAt")
+				if rapid.IntRange(0, 2).Draw(t, "concurrentCloners") == 0 {
+					p.cloners = rapid.IntRange(1, 2).Draw(t, "cloners")
+				}
 			}
 			if rapid.IntRange(0, 4).Draw(t, fmt.Sprintf("close%d", i)) == 0 {
 				p.closeAt = rapid.IntRange(0, total).Draw(t, "closeAt")
@@ -406,6 +410,19 @@ func TestVerif_C15_Conc(t *testing.T) {
 			p := plans[i]
 			r := &c15Reader{name: fmt.Sprintf("r%d", i), sub: s, fromStart: fromStart, startPubs: atomic.LoadInt64(&pubsDone),
 				delayEvery: p.delayEvery, stallUntil: p.stall, cloneAt: p.cloneAt, closeAt: p.closeAt}
+			for k := 0; k < p.cloners; k++ {
+				// clones taken and dropped by other goroutines must not disturb what the reader's own clone receives
+				go func() {
+					for j := 0; j < 400; j++ {
+						c, err := s.Clone()
+						if err != nil {
+							return
+						}
+						c.Close()
+						runtime.Gosched()
+					}
+				}()
+			}
 			mu.Lock()
 			readers = append(readers, r)
 			mu.Unlock()
